@@ -273,13 +273,32 @@ def step (regs : List TA) : Op → Except Err (List TA)
       | .error e => .error e
     | _, _ => .error .badReg
 
-/-- run a history; a rejected operation leaves the registers as they were (the code raises before mutating) -/
+/-- what a failing `add_tree` leaves behind when its length `assert` fires: `validate_rooting` has already adopted the
+    rooting and `count_splits_on_tree` has already counted the tree; the four lists are untouched -/
+def addTreeHalf (ta : TA) (t : TRec) : TA :=
+  match validateRooting ta.rooting t.rooted with
+  | none => ta
+  | some r => { ta with rooting := r, sd := countTree ta.sd t }
+
+/-- registers after a rejected operation: every rejection happens before anything is mutated, except the
+    `assert` inside `add_tree` (see `addTreeHalf`) -/
+def afterError (regs : List TA) (op : Op) (e : Err) : List TA :=
+  if e = .assertion then
+    match op with
+    | .add d t | .ins d _ t =>
+      match regs[d]? with
+      | some a => regs.set d (addTreeHalf a t)
+      | none => regs
+    | _ => regs
+  else regs
+
+/-- run a history, logging the outcome of every operation -/
 def run (regs : List TA) : List Op → List TA × List (Option Err)
   | [] => (regs, [])
   | op :: ops =>
     match step regs op with
     | .ok regs' => let (r, log) := run regs' ops; (r, none :: log)
-    | .error e => let (r, log) := run regs ops; (r, some e :: log)
+    | .error e => let (r, log) := run (afterError regs op e) ops; (r, some e :: log)
 
 /-! ## per-tree queries and summaries -/
 
@@ -306,6 +325,20 @@ def sums (ta : TA) : Option (List Q) :=
   else some ((ta.leafsets.zip ta.splits).map fun p => treeSum ta.sd p.1 p.2)
 
 def Q.le (a b : Q) : Bool := a.num * b.den ≤ b.num * a.den
+def Q.lt (a b : Q) : Bool := a.num * b.den < b.num * a.den
+
+/-- `(index, value)` of the first strict maximum among `l`, scanning from index `i` with the best so far `best`
+    (`if max_score is None or max_score < score`) -/
+def argmaxFrom : List Q → Nat → Option (Nat × Q) → Option (Nat × Q)
+  | [], _, best => best
+  | x :: r, i, none => argmaxFrom r (i + 1) (some (i, x))
+  | x :: r, i, some (j, m) => argmaxFrom r (i + 1) (if Q.lt m x then some (i, x) else some (j, m))
+
+/-- `max_score_tree_idx` of `calculate_log_product_of_split_supports` (`none`: empty collection or failed assert) -/
+def mccIndex (ta : TA) : Option Nat :=
+  match scores ta with
+  | none => none
+  | some l => (argmaxFrom l 0 none).map (·.1)
 
 /-- insertion of `(freq, mask)` into a list sorted in descending order (`to_try_to_add.sort(reverse=True)`) -/
 def insDesc (x : Q × Nat) : List (Q × Nat) → List (Q × Nat)
